@@ -79,6 +79,7 @@ func runC08(c *Ctx) {
 	ruleFailurePath(c, "R8.7")
 	ruleStateAccessUnderLock(c, "R8.8")
 	ruleSeenPacketsOnlyGrow(c, "R8.9")
+	ruleJoinerSignatures(c, "R8.10") // a proposal moves the state only if every joiner it names signed its own identity
 }
 
 // R8.1 -------------------------------------------------------------------------------------------
